@@ -45,8 +45,13 @@ def build_doc(ad, D=None, style_catalogue=None):
   regions = []
   for r in range(ad["nr"]):
     reg = m.Region("r%d" % (r + 1), doc)
-    reg.set_begin(frac(ad["rb"][r], D))
-    reg.set_end(frac(ad["re"][r], D))
+    # t0 (whole seconds): the whole timeline is shifted by t0 - the body and every region begin t0 later; snapshots are then
+    # asked for at t0 + t and reported times have t0 taken off again (TTML timing is translation invariant), so that TLC
+    # sees the same small tick numbers while the implementation computes with large and finely resolved rationals
+    t0 = ad.get("t0", 0)
+    rb_, re_ = frac(ad["rb"][r], D), frac(ad["re"][r], D)
+    reg.set_begin(rb_ if not t0 else t0 + (rb_ or 0))
+    reg.set_end(re_ if (not t0 or re_ is None) else t0 + re_)
     if ad["rdisp"][r]:
       reg.set_style(sp.StyleProperties.Display, disp_val[ad["rdisp"][r]])
     if ad["rbg"][r] == "whenActive":
@@ -72,8 +77,12 @@ def build_doc(ad, D=None, style_catalogue=None):
       e = kc[kind](doc)
       e.set_id("e%d" % (k + 1))
       if kind != "br":
-        e.set_begin(frac(ad["b"][k], D))
-        e.set_end(frac(ad["e"][k], D))
+        b_, e_ = frac(ad["b"][k], D), frac(ad["e"][k], D)
+        if ad.get("t0") and ad["parent"][k] == 0:
+          b_ = ad["t0"] + (b_ or 0)
+          e_ = None if e_ is None else ad["t0"] + e_
+        e.set_begin(b_)
+        e.set_end(e_)
         if ad["reg"][k]:
           e.set_region(regions[ad["reg"][k] - 1])
       if ad["disp"][k]:
